@@ -189,7 +189,9 @@ func vpH_C07_chunks() {
 	}
 	r, err := seg.DocumentValueReader([]string{"b"})
 	vpMust(err, "DocumentValueReader")
-	orders := [][]int{{5, 1023, 1024, 2049, 1029}, {2049, 1024, 1023, 5, 1024}, {1024, 5, 2049, 6, 1023}}
+	orders := [][]int{{5, 1023, 1024, 2049, 1029}, {2049, 1024, 1023, 5, 1024}, {1024, 5, 2049, 6, 1023},
+		// back and forth between a chunk and its (possibly empty) neighbour
+		{5, 1030, 5, 2049, 1500, 2049, 1023}}
 	if vpThorough() {
 		orders = [][]int{{5, 1023, 1024, 1025, 2047, 2049}, {2049, 2047, 1025, 1024, 1023, 5}, {1024, 2049, 5, 2047, 1023, 1025, 7, 2048}}
 	}
